@@ -1355,6 +1355,15 @@ func c13HuntedRules(ctx *Ctx, r *Report, ts *tmplSet, branches []tmplBranch) {
 		txt := tmplText(b.body)
 		r.Check(strings.Contains(txt, "== nil) != (") || (strings.Contains(txt, "Nullable") && strings.Contains(txt, "!= nil && *")), "skeleton/equality-named-nullable-scalar", "type_equality_check scalar branch handles named nullable scalars", token.NoPos, "pointed-to values are compared",
 			file+": the scalar branch compares a reference to a named nullable scalar (`type MaybeStr *string`) with `!=`, i.e. by pointer identity: two values decoded from the same document are unequal")
+		// bytes are declared []byte: a slice is only comparable to nil
+		bytesBranch := false
+		for _, b2 := range branches {
+			if b2.cond != nil && strings.Contains(b2.cond.String(), "bytes") && strings.Contains(tmplText(b2.body), "bytes.Equal(") {
+				bytesBranch = true
+			}
+		}
+		r.Check(bytesBranch || strings.Contains(txt, "bytes.Equal("), "skeleton/equality-bytes", "type_equality_check compares bytes with bytes.Equal", token.NoPos, "a branch for the bytes kind uses bytes.Equal",
+			file+": the scalar branch compares every scalar with `!=`, the bytes kind included, which the type formatter declares []byte: `resource.B != other.B` — invalid operation: slice can only be compared to nil — the package does not type-check with generate_equal")
 		r.Check(strings.Contains(txt, ".Equal("), "skeleton/equality-time", "type_equality_check scalar branch handles time.Time", token.NoPos, "date-time values are compared with Equal",
 			file+": date-time fields are declared time.Time and compared with `!=`, which also compares the *Location pointers: two values decoded from the same document are unequal as soon as the offset is not UTC or a whole hour (+05:30)")
 	}
